@@ -124,6 +124,37 @@ pub fn leak_scan(pats: &[(String, Vec<u8>)], hay: &[u8]) -> Option<String> {
             }
         }
     }
+    // hexadecimal with separators: `{:02x?}` / `{:x?}` of a byte slice ("[a3, 20, 49, ..]"), colon- or
+    // space-separated dumps, 0x-prefixed bytes. Everything that is not a hex digit is squeezed out (after
+    // dropping "0x" prefixes) and the plain hex patterns are searched again.
+    if hay.iter().any(|b| matches!(b, b',' | b':' | b' ')) {
+        let lower = hay.to_ascii_lowercase();
+        let mut sq: Vec<u8> = Vec::with_capacity(lower.len());
+        let mut sq1: Vec<u8> = Vec::with_capacity(lower.len()); // variant for `{:x?}` (no zero padding): single digits padded
+        let mut i = 0;
+        let mut run: Vec<u8> = vec![];
+        let mut flush = |run: &mut Vec<u8>, sq: &mut Vec<u8>, sq1: &mut Vec<u8>| {
+            sq.extend_from_slice(run);
+            if run.len() == 1 { sq1.push(b'0'); }
+            sq1.extend_from_slice(run);
+            run.clear();
+        };
+        while i < lower.len() {
+            if lower[i] == b'0' && i + 1 < lower.len() && lower[i + 1] == b'x' {
+                flush(&mut run, &mut sq, &mut sq1);
+                i += 2;
+                continue;
+            }
+            if lower[i].is_ascii_hexdigit() { run.push(lower[i]); } else { flush(&mut run, &mut sq, &mut sq1); }
+            i += 1;
+        }
+        flush(&mut run, &mut sq, &mut sq1);
+        for (name, p) in pats {
+            if name.ends_with(":hex") && (contains(&sq, p) || contains(&sq1, p)) {
+                return Some(format!("{}-separated", name));
+            }
+        }
+    }
     None
 }
 
